@@ -73,6 +73,8 @@ struct DaemonScenario : Scenario {
   bool catchall = false;         // control/virtualdomains also has a catch-all entry and an exception
   int held_ticks = 0, burned = 0;
   int sigwait_held = 0;
+  bool busysig = false, busysig_done = false;   // option busysig=1
+  bool halfsleep = false;   // option halfsleep=1
   bool sigwait = false, sigwait_done = false;   // option sigwait=1
   int hups_since_start = 0;
   bool clockback = false, clock_was_set_back = false;   // option clockback=1
@@ -100,7 +102,7 @@ struct DaemonScenario : Scenario {
     while (i < ms.size()) { size_t j = ms.find('+', i); if (j == std::string::npos) j = ms.size(); std::string n = ms.substr(i, j - i); for (auto &x : cat) if (x.name == n) tosend.push_back(x); i = j + 1; }
     inject_mode = c.get("inject", "seq");
     conc_l = c.geti("concl", 2); conc_r = c.geti("concr", 2); announce = c.geti("announce", 120); lifetime = c.geti("lifetime", 604800);
-    catchall = c.geti("catchall", 0); hupedit = c.geti("hupedit", 0); queue_refusals = c.geti("queuerefuse", 0); clockback = c.geti("clockback", 0); sigwait = c.geti("sigwait", 0);
+    catchall = c.geti("catchall", 0); hupedit = c.geti("hupedit", 0); queue_refusals = c.geti("queuerefuse", 0); clockback = c.geti("clockback", 0); sigwait = c.geti("sigwait", 0); halfsleep = c.geti("halfsleep", 0); busysig = c.geti("busysig", 0);
     max_ticks = c.geti("maxticks", 60); max_restarts = c.geti("maxrestarts", 3); clock_frozen = c.geti("frozenclock", 0);
   }
   bool M(const char *m) { return mon.count(m) > 0; }
@@ -384,6 +386,7 @@ struct DaemonScenario : Scenario {
 
   // ------------------------------------------------------------------ step monitors
   void after_step(World &w, Proc &p, const Step &st) override {
+    if (st.sigraised == SIGALRM && busysig && p.vpid == sendpid) { busysig_done = true; history += " ALRM(while busy)"; w.counters["signal_ALRM"]++; w.counters["alrm_while_busy"]++; note_signal(w, 1); return; }
     if (st.sigraised == -1 && sigwait) { sigwait_done = true; sigwait_held = p.vpid; return; }   // the bounce's queue program has closed its descriptors but not exited yet; at the next quiescent point (the daemon now waits for it) a HUP arrives
     if (st.sigraised == SIGHUP && hupedit) { config_b = !config_b; write_routing_controls(w); history += config_b ? " EDIT+HUP-during-reread(far.example local, virt2.example virtual)" : " EDIT+HUP-during-reread(back)"; w.counters["control_edits"]++; w.counters["hup_during_reread"]++; return; }
     if (st.op == VK_WRITE && (st.tag == TAG_LCMD || st.tag == TAG_RCMD) && st.ret > 0) drain_commands(w, st.tag == TAG_LCMD ? 0 : 1);
@@ -526,6 +529,8 @@ struct DaemonScenario : Scenario {
   void alternatives(World &w, Proc &p, const Req &r, std::vector<Alt> &a) override {
     // a HUP reaches the daemon while it waits for the queue program it started for a bounce (the wait is interrupted and must be taken up again)
     if (sigwait && !sigwait_done && p.ppid == sendpid && sendpid && r.op == VK_EXIT && p.name.find("qmail-queue") != std::string::npos && w.ex->bound[BK_ENV] > 0) { a.push_back({BK_ENV, ALT_HOLD_EXIT, 0}); return; }
+    // ALRM reaches the daemon while it is busy (reading a report), not while it sleeps: the request to retry everything must not be lost
+    if (busysig && !busysig_done && p.vpid == sendpid && r.op == VK_READ && w.ex->bound[BK_ENV] > 0 && !p.in_handler && !term_sent) { Ofd *o = w.O(p, r.a[0]); if (o && o->kind == K_PIPE_R && (o->pipe == rep[0] || o->pipe == rep[1])) a.push_back({BK_ENV, ALT_SIGNAL, SIGALRM}); }
     // C10: a second edit + HUP lands while the daemon is still rereading its control files after the first one
     if (hupedit && hups_since_start > 0 && p.vpid == sendpid && r.op == VK_OPEN && r.data.compare(0, 8, "control/") == 0 && w.ex->bound[BK_ENV] > 0 && !p.in_handler) a.push_back({BK_ENV, ALT_SIGNAL, SIGHUP});
     // the queue program the daemon starts for a bounce (qmail-queue, or whatever QMAILQUEUE names) may refuse: permanently (31) or temporarily (53)
@@ -700,8 +705,13 @@ struct DaemonScenario : Scenario {
     Proc *p = proc(w, sendpid); if (!p) return;
     static const int sigs[] = {SIGTERM, SIGALRM, SIGHUP}; static const char *names[] = {"TERM", "ALRM", "HUP"};
     if (which == 2) hups_since_start++;
+    if (which == 2 && halfsleep) { long dl = w.next_deadline(); if (dl > w.k.clock + 2) { w.advance_clock(w.k.clock + (dl - w.k.clock) / 2); history += " (half the sleep passes)"; w.counters["signals_in_mid_sleep"]++; } }   // the signal finds the daemon in the middle of a timed sleep: what remains of it must be recomputed from the current time
     if (which == 2 && hupedit) { config_b = !config_b; write_routing_controls(w); history += config_b ? " EDIT(far.example local, virt2.example virtual)" : " EDIT(back)"; w.counters["control_edits"]++; }
     w.raise_sig(*p, sigs[which]); history += std::string(" ") + names[which]; w.counters[std::string("signal_") + names[which]]++;
+    note_signal(w, which);
+  }
+  void note_signal(World &w, int which) {   // what the monitors have to know about a signal, however it was delivered
+    (void) w;
     if (which == 0) { term_sent = true; for (auto &kv : ledger) for (int c = 0; c < 2; c++) if (kv.second.pass_started[c] && !kv.second.gone && !kv.second.pass_eof[c]) kv.second.term_open_pass[c] = true; }
     if (which == 1 && !term_sent) { alarm_check_pending = true; for (auto &kv : ledger) { MsgState &m = kv.second; for (int c = 0; c < 2; c++) { bool pend = false, fly = false; for (auto &r : m.rc) if (r.chan == c && !r.final_report && !r.marked) { pend = true; if (r.inflight) fly = true; } m.alrm_due[c] = !m.gone && m.preprocessed && m.had_defer[c] && pend && !fly; } } }
     if (which == 1) { alarm_since[0] = alarm_since[1] = true; for (auto &kv : ledger) { kv.second.earliest_next[0] = kv.second.earliest_next[1] = 0; } }
